@@ -102,14 +102,17 @@ def h_construct(c, pkg, op, pre=None):
     for i, n in enumerate(lens):
         stack.put(c.bytes(f's{i}', n))
     cache = c.dict()
+    # the flags of the scope in which functions get defined (an outer scope: a flag-copying construct such as IF hands its body a
+    # copy, so the calling scope below may have changed a flag since)
+    outer_flags = tape.flags.copy()
     if pre:
         getattr(F, pre)(C.Tape(b'\x01\x01', flags=tape.flags), stack, cache)
     parent_before = tape.flags.copy()
     summ = vmstep.make_summary(c, pkg, pops=0, pushes=0, writes_cache=False, may_return=False, flag_ops=True, parent=tape)
     if op == 'OP_CALL':
         # define function 0 with the real OP_DEF first (its sub-tape construction is part of the claim)
-        dt = C.Tape(b'\x00\x00\x01\x00', callstack_limit=3, callstack_count=1, contracts=contracts, plugins=plugins, flags=tape.flags,
-                    definitions=tape.definitions)
+        dt = C.Tape(b'\x00\x00\x01\x00', callstack_limit=3, callstack_count=1, contracts=contracts, plugins=plugins,
+                    flags=(outer_flags if pre else tape.flags), definitions=tape.definitions)
         F.OP_DEF(dt, stack, cache)
     with vmstep.Installed(pkg, summ):
         r = outcome_of(getattr(F, op), tape, stack, cache)
